@@ -488,6 +488,8 @@ func readNativeFrameStream(br *bufio.Reader) (string, error) {
 
 // close ends the stream the polite way (QUIT, then wait for the server to
 // close) so that the subscription is gone before the next case.
+func deadlineIn(d time.Duration) time.Time { return time.Now().Add(d) }
+
 func (s *stream) close() {
 	s.c.SetDeadline(time.Now().Add(5 * time.Second))
 	s.c.Write(t38.EncodeCmd("QUIT"))
